@@ -82,4 +82,8 @@
   (ite (fp.eq ((_ to_fp 11 53) RNE ((_ to_fp 8 24) RNE x)) x) #x0000000000000005 #x0000000000000009))))))
 ; tag classes of strings and byte arrays
 (define-fun G.isStr ((t (_ BitVec 8))) Bool (or (bvule t #x1f) (and (bvuge t #x30) (bvule t #x33)) (= t #x52) (= t #x53)))
-(define-fun G.isBin ((t (_ BitVec 8))) Bool (or (and (bvuge t #x20) (bvule t #x2f)) (= t #x41) (= t #x42)))
+; binary ::= x41 b1 b0 <data> binary | 'B' b1 b0 <data> | [x20-x2f] <data> | [x34-x37] b0 <data>
+(define-fun G.isBinShort ((t (_ BitVec 8))) Bool (and (bvuge t #x20) (bvule t #x2f)))
+(define-fun G.isBinMid ((t (_ BitVec 8))) Bool (and (bvuge t #x34) (bvule t #x37)))
+(define-fun G.isBinFinal ((t (_ BitVec 8))) Bool (or (G.isBinShort t) (G.isBinMid t) (= t #x42)))
+(define-fun G.isBin ((t (_ BitVec 8))) Bool (or (G.isBinFinal t) (= t #x41)))
